@@ -52,7 +52,7 @@ def nodes(a):
 def write_chunks(c, paths, scns, nchunks):
     """Scenario files: every chunk is a sequence of reset-delimited groups (one family each)."""
     groups = []   # (fam, pathset, [records])
-    work = [(fam, {"pred": "pred", "struct": "struct", "acl": "acl", "pol": "struct"}[fam], scns[fam])
+    work = [(fam, {"pred": "pred", "struct": "struct", "acl": "acl", "pol": "struct", "ext": "acl"}[fam], scns[fam])
             for fam in sorted(scns)]
     if c.thorough:
         # the small expressions also on all paths of up to 4 hops
@@ -82,6 +82,8 @@ def write_chunks(c, paths, scns, nchunks):
                         f.write(json.dumps({"ev": "seq", "ast": s}) + "\n")
                     elif fam == "acl":
                         f.write(json.dumps({"ev": "acl", "acl": s["acl"]}) + "\n")
+                    elif fam == "ext":
+                        f.write(json.dumps({"ev": "ext", "top": s["top"], "pool": s["pool"]}) + "\n")
                     else:
                         f.write(json.dumps({"ev": "pol", "acl": s["acl"], "seq": s["seq"],
                                             "opts": s["opts"]}) + "\n")
@@ -157,7 +159,7 @@ def account(c, traces):
                 evs += n
                 # non-trivial: the filter kept some but not all of its input
                 if 0 < len(ev["kept"]) < n:
-                    key = json.dumps({k: ev.get(k) for k in ("ast", "acl", "seq", "opts")}, sort_keys=True)
+                    key = json.dumps({k: ev.get(k) for k in ("ast", "acl", "seq", "opts", "top", "pool")}, sort_keys=True)
                     distinct.add(key)
     c.cov["traces_validated_against_impl"] += ntr
     c.cov["evaluations"] += evs
